@@ -181,6 +181,17 @@ fn header_ss(flag: u8, fcs_field: u64) -> Vec<u8> {
     v.extend_from_slice(&fcs_field.to_le_bytes()[..n]);
     v
 }
+/// NOT single-segment, window descriptor `wd` AND a Frame_Content_Size field (flag 1..=3): the window is the descriptor's,
+/// whatever the content size says
+fn header_wd_fcs(wd: u8, flag: u8, fcs: u64) -> Vec<u8> {
+    let mut v = MAGIC.to_vec();
+    v.push(flag << 6);
+    v.push(wd);
+    let n = [0usize, 2, 4, 8][flag as usize];
+    let field = if flag == 1 { fcs.saturating_sub(256) } else { fcs };
+    v.extend_from_slice(&field.to_le_bytes()[..n]);
+    v
+}
 fn spec_window(wd: u8) -> u64 {
     let base = 1u64 << (10 + (wd >> 3));
     base + (base / 8) * (wd & 7) as u64
@@ -227,6 +238,12 @@ pub fn run(opts: &Opts) -> Run {
     for wd in [0u8, 0x88, 0x89, 0xFF] {
         subjects.push((header_wd(4, wd), spec_window(wd), "descriptor+checksum"));
         subjects.push((header_wd(1, wd), spec_window(wd), "descriptor+dict"));
+    }
+    // a descriptor together with a content size that is much SMALLER (or larger) than the declared window
+    for wd in [0x00u8, 0x50, 0x6F, 0x88, 0x89, 0x90, 0xA0] {
+        for (flag, fcs) in [(1u8, 268u64), (1, 65_000), (2, 12), (2, 300_000), (3, 12), (3, 1 << 33)] {
+            subjects.push((header_wd_fcs(wd, flag, fcs), spec_window(wd), "descriptor+content-size"));
+        }
     }
     let sizes: [u64; 22] = [0, 1, 255, 256, 1023, 1024, 1025, 65535, 65536, 65791, 1 << 17, DEFAULT - 1, DEFAULT, DEFAULT + 1, (1 << 32) - 1, 1 << 32, MAX - 1, MAX, MAX + 1, 1 << 62, 1 << 63, u64::MAX];
     for &s in &sizes {
